@@ -22,11 +22,14 @@ def explore(ctx):
     for name, form in pairs:
         lines = ["FUEL 3000", "NEW 0 std", "EVAL 0 " + common.hexs("(import (verif tick))"), "EVAL 0 " + common.hexs(form)]
         cases.append({"lines": lines, "forms": [form], "kind": "pair " + name})
+    for name, form in gen.lookalike_forms(ctx.rng, ctx.quick):
+        lines = ["FUEL 3000", "NEW 0 std", "EVAL 0 " + common.hexs("(import (verif tick))"), "EVAL 0 " + common.hexs(form)]
+        cases.append({"lines": lines, "forms": [form], "kind": "lookalike " + name})
     for name, forms in gen.scope_probes(ctx.rng):
         lines = ["FUEL 3000", "NEW 0 std", "EVAL 0 " + common.hexs("(import (verif tick))")]
         lines += ["EVAL 0 " + common.hexs(f) for f in forms]
         cases.append({"lines": lines, "forms": forms, "kind": "scope " + name})
-    n = 250 if ctx.quick else 8000
+    n = 1200 if ctx.quick else 8000
     for k in range(n):
         g = gen.Gen(ctx.rng, ticks=True, derived=True, tick_rate=0.3)
         forms, _ = g.program(ctx.rng.randint(3, 7), ctx.rng.choice([2, 3, 3]))
@@ -52,7 +55,9 @@ def explore(ctx):
         "disagreements": ndis,
         "rule": "(a) every pair of derived forms (12 templates covering begin let let* cond cond=> cond-test-only case "
                 "case=> and or when unless) with the inner form in every sub-form position of the outer one (%s), every "
-                "other position holding a ticking expression; (b) %d random programs nesting the derived forms inside "
+                "other position holding a ticking expression; (a') every template with one position holding a datum SPELLED like a "
+                "keyword of the templates (the strings \"=>\" \"else\" \"...\" \"_\", quoted else / =>), which is data and leaves the clause "
+                "its ordinary meaning; (b) %d random programs nesting the derived forms inside "
                 "each other and inside procedures with ticking sub-forms. Observables per form: value, tick trace "
                 "(order and multiplicity of evaluation), stdout. non-trivial = distinct form that evaluated and ticked"
                 % ("sampled" if ctx.quick else "all", n),
